@@ -317,7 +317,7 @@ pub fn run(args: &Args) -> ! {
     ev.set(
         "rule",
         format!(
-            "contents: every byte string over {{a,b,-,\\n}} up to length {} (with and without final newline by construction) plus CRLF variants of the short ones; {} patterns (empty-matching, anchors, word boundaries, groups, and ten that can match a line terminator) x {} flag sets (-i, -w, -x, -v, -U, -U -v, -m1, -m2, --crlf, ...). Each (content, pattern, flags) group is rendered in-process (printers configured as hiargs.rs does) in ten modes: standard, standard --stats, -c, -c --stats, --count-matches, -o, -l, --files-without-match, -q, --json; plus a command-line layer (3 trees of 3 files x 6 patterns x 9 flag sets: per-file counts, exit status, -c -o and --count-matches -v normalisation, --stats totals vs sums over files); the statement's relations are checked on the group (count vs printed matching lines, keyed on the strategy actually used; count-matches vs -o records vs JSON submatches; no matching line without submatch unless inverted; -l / --files-without-match / -q vs count; stats vs counts). distinct_nontrivial = groups with a non-zero count.",
+            "contents: every byte string over {{a,b,-,\\n}} up to length {} (with and without final newline by construction) plus CRLF variants of the short ones; {} patterns (empty-matching, anchors, word boundaries, groups, and ten that can match a line terminator) x {} flag sets (-i, -w, -x, -v, -U, -U -v, -m1, -m2, --crlf, ...). Each (content, pattern, flags) group is rendered in-process (printers configured as hiargs.rs does) in ten modes: standard, standard --stats, -c, -c --stats, --count-matches, -o, -l, --files-without-match, -q, --json; plus a command-line layer (3 trees of 3 files x 6 patterns x 9 flag sets: per-file counts, exit status, -c -o and --count-matches -v normalisation, --stats totals vs sums over files, and the --stats / JSON summary totals of a three-thread run vs the single-threaded ones); the statement's relations are checked on the group (count vs printed matching lines, keyed on the strategy actually used; count-matches vs -o records vs JSON submatches; no matching line without submatch unless inverted; -l / --files-without-match / -q vs count; stats vs counts). distinct_nontrivial = groups with a non-zero count.",
             maxlen, PATTERNS.len(), fsets.len()
         ),
     );
@@ -496,6 +496,46 @@ fn cli_layer(tier: Tier) -> (u64, Vec<(String, Value)>) {
                     if m != cms.values().sum::<u64>() && !fs.contains(&"-m1") {
                         bad.push(format!("--stats matches {} != sum of --count-matches {}", m, cms.values().sum::<u64>()));
                     }
+                }
+            }
+            // the same totals from a multi-threaded run (statistics are summed
+            // over workers there)
+            {
+                let par = |extra: &[&str]| -> Vec<u8> {
+                    let mut a: Vec<String> = extra.iter().map(|s| s.to_string()).collect();
+                    a.extend(base.iter().cloned());
+                    std::process::Command::new(&rg)
+                        .current_dir(&dir)
+                        .args(["--no-config", "--color", "never", "-j3"])
+                        .args(&a)
+                        .output()
+                        .unwrap_or_else(|_| machinery_error("cannot run rg"))
+                        .stdout
+                };
+                let totals = |out: &[u8]| -> Vec<(String, Option<u64>)> {
+                    let t = String::from_utf8_lossy(out).to_string();
+                    [" matches", " matched lines", " files contained matches", " files searched", " bytes searched"]
+                        .iter()
+                        .map(|suf| (suf.to_string(), t.lines().rev().find(|l| l.ends_with(suf)).and_then(|l| l.split_whitespace().next()).and_then(|n| n.parse().ok())))
+                        .collect()
+                };
+                let (t1, tn) = (totals(&st_out), totals(&par(&["--stats", "-n", "-H", "--no-heading"])));
+                if t1 != tn {
+                    bad.push(format!("--stats totals differ between -j1 {:?} and -j3 {:?}", t1, tn));
+                }
+                let jsum = |out: &[u8]| -> Option<Value> {
+                    out.split(|&b| b == b'\n').filter_map(|l| serde_json::from_slice::<Value>(l).ok()).find(|v| v["type"] == "summary").map(|mut v| {
+                        let st = &mut v["data"]["stats"];
+                        if let Some(m) = st.as_object_mut() {
+                            m.remove("elapsed");
+                            m.remove("bytes_printed");
+                        }
+                        st.clone()
+                    })
+                };
+                let (j1, jn) = (jsum(&js_out), jsum(&par(&["--json"])));
+                if j1 != jn {
+                    bad.push(format!("JSON summary statistics differ between -j1 {:?} and -j3 {:?}", j1, jn));
                 }
             }
             let mut r = res.lock().unwrap();
